@@ -18,6 +18,7 @@ import (
 	"github.com/free5gc/go-upf/internal/forwarder"
 	"github.com/free5gc/go-upf/internal/verif/flowgen"
 	"github.com/free5gc/go-upf/internal/verif/fullstack"
+	"github.com/free5gc/go-upf/internal/verif/rxwindow"
 	"github.com/free5gc/go-upf/internal/verif/simkernel"
 	"github.com/free5gc/go-upf/internal/verif/stack"
 	"github.com/free5gc/go-upf/internal/verif/vcore"
@@ -651,16 +652,34 @@ func both(t vcore.Failer, c Case) {
 	}
 }
 
+func runWindow(t vcore.Failer, c rxwindow.Case) {
+	v, st := rxwindow.Run(c)
+	vcore.E.Eval()
+	vcore.E.Class("heartbeat_after_unanswered_requests")
+	if st.Unanswered > 0 {
+		vcore.E.NonTrivial(vcore.JSON(c))
+	}
+	vcore.Report(t, v, map[string]any{"window": c})
+}
+
 func TestC07(t *testing.T) {
 	files, explicit := vcore.ReplayFiles()
 	for _, f := range files {
-		var c Case
-		if err := vcore.LoadReplayCase(f, &c); err != nil {
+		var w struct {
+			Case
+			Window *rxwindow.Case `json:"window"`
+		}
+		if err := vcore.LoadReplayCase(f, &w); err != nil {
 			t.Fatalf("replay %s: %v", f, err)
 		}
+		vcore.E.Class("replayed")
+		if w.Window != nil {
+			runWindow(t, *w.Window)
+			continue
+		}
+		c := w.Case
 		r := run(c)
 		account(c, r)
-		vcore.E.Class("replayed")
 		report(t, c, r)
 	}
 	if explicit {
@@ -668,6 +687,11 @@ func TestC07(t *testing.T) {
 	}
 	net2 := stack.Net2FromEnv(107)
 	_ = net2
+	// still serving after requests that were never answered: the same socket and sequence number must work again once the
+	// retention window has passed (package rxwindow, real timers)
+	vcore.Check(t, vcore.N(12, 80), func(rt *rapid.T) {
+		runWindow(rt, rxwindow.Gen(rt))
+	})
 	// structure-aware
 	vcore.Check(t, vcore.N(1500, 12000), func(rt *rapid.T) {
 		c := Case{Sessions: rapid.IntRange(0, 3).Draw(rt, "sessions")}
